@@ -91,7 +91,8 @@ def run(chk, repo):
     # parse_line raises ValueError when no match, returns groupdict
     ok_pl = any(isinstance(n, ast.Raise) and "ValueError" in norm(n.exc) for n in pl.own_nodes()) and any(isinstance(n, ast.Return) and "groupdict" in norm(n.value) for n in pl.own_nodes())
     chk.require(ok_pl, "C14-S1", where, "parse_line raises ValueError on a non-match and returns the groups otherwise", "parse_line no longer raises ValueError / returns the groups", key="parse_line:contract")
-    s3(chk, repo, mod)
+    chk.attempt(summary_eval, chk, repo, mod)
+    chk.attempt(s3, chk, repo, mod, covered_by="summary_eval", rules=("C14-S3",))
     # S4
     ps = mod.func("parse_summary")
     flow = Flow(ps)
@@ -110,10 +111,99 @@ def run(chk, repo):
     skeys = {const_str(k) for k in sn[-1].keys} if sn and isinstance(sn[-1], ast.Dict) else None
     chk.require(tkeys is not None and tkeys == skeys, "C14-S5", f"{mod.relpath}:transform_summary", f"sections {sorted(skeys or [])} each have a transformer and a name",
                 f"section_names keys {sorted(skeys or [])} != transformer keys {sorted(tkeys or [])}", key="sections:agree")
-    chk.attempt(grouping_semantics, chk, repo, mod)
+    chk.attempt(grouping_semantics, chk, repo, mod, covered_by="summary_eval", rules=("C14-S6",))
     chk.attempt(section_schema, chk, repo, mod)
     chk.attempt(keyword_order, chk, repo, mod)
     chk.count("functions", 3)
+
+
+def summary_eval(chk, repo, mod):
+    """C14-S9: parse_summary evaluated (the checker's interpreter; the regex is folded by the standard library) on a corpus of
+    summary texts: well-formed texts in every line-ending convention and line order, values with blanks / = / quotes, and every
+    subset of corrupted lines of a small text in several grammar-violating ways.  Oracle: {section.lower(): {keyword: value}} for
+    well-formed texts; for corrupted ones one ExceptionGroup whose sub-exceptions name exactly the corrupted lines."""
+    import itertools
+    from collections import OrderedDict
+    from ..repeval import from_shape
+    from ..shapes import Const, DictS, Fn, Interp, ListLit, Obj, ShapeError, TupS, _Raise
+    where = f"{mod.relpath}:parse_summary"
+    chk.rule("C14-S9", "parse_summary on a corpus of texts: well-formed texts (LF / CRLF / mixed / no final newline, any line order) give the section dicts; corrupted ones one error group naming exactly the corrupted lines", 100)
+    base = [("Odi", "SceneId", "ALOS2012345678-140102"), ("Scs", "SceneShift", "0"), ("Pds", "ProductID", "WWDR1.1__D"), ("Odi", "Comment", 'mode="fine" beam=F2'),
+            ("Lbi", "Note", "a=b"), ("Ach", "TimeCheck", ""), ("Pdi", "NoOfPixels_0", "20"), ("Scs", "A_B", "x y")]
+    want = {}
+    for sec, kw, val in base:
+        want.setdefault(sec.lower(), {})[kw] = val
+
+    def text(entries, sep="\n", final=True):
+        return sep.join(f'{s_}_{k}="{v}"' for s_, k, v in entries) + (sep if final else "")
+
+    groups = []
+
+    def run(content):
+        I = Interp(repo)
+        sc = I.module_scope(mod)
+
+        def eg(I_, a, kw):
+            groups.append(a)
+            return Obj("ExceptionGroup", OrderedDict(message=a[0] if a else Const(None), exceptions=a[1] if len(a) > 1 else ListLit([]), classes=Const(("ExceptionGroup", "Exception", "BaseException", "object"))))
+        sc.vars["ExceptionGroup"] = Fn("py", impl=eg, name="ExceptionGroup")
+        try:
+            out = I.call(I.lookup("parse_summary", sc), [Const(content)], {})
+            return "ok", from_shape(out)
+        except _Raise as e:
+            return "raise", e
+        except ShapeError as e:
+            raise AnalysisError(f"{where}: cannot be evaluated on a model text: {str(e)[:140]}")
+
+    fails = {}
+    n_cases = 0
+    orders = {"file order": base, "reversed": base[::-1], "sections interleaved": base[::2] + base[1::2], "rotated": base[3:] + base[:3]}
+    for oname, ents in orders.items():
+        for sname, sep, final in (("LF", "\n", True), ("CRLF", "\r\n", True), ("LF, no final newline", "\n", False), ("CRLF, no final newline", "\r\n", False)):
+            n_cases += 1
+            st, got = run(text(ents, sep, final))
+            if st != "ok":
+                fails.setdefault("wellformed-raises", []).append(f"a well-formed text ({oname}, {sname}) is rejected: {got.what[:80]}")
+            elif got != want:
+                fails.setdefault("wellformed-wrong", []).append(f"a well-formed text ({oname}, {sname}) parses to {str(got)[:140]}, expected {str(want)[:100]}")
+    n_cases += 1
+    mixed = 'Odi_A="1"\r\nScs_B="2"\nPds_C="3"\r\n'
+    st, got = run(mixed)
+    if st != "ok" or got != {"odi": {"A": "1"}, "scs": {"B": "2"}, "pds": {"C": "3"}}:
+        fails.setdefault("mixed-endings", []).append(f"a text with mixed LF / CRLF endings gives {got.what[:60] if st != 'ok' else got}")
+    # corrupted subsets: 5 lines, every non-empty subset, three kinds of corruption
+    small = base[:5]
+    corruptions = {"missing quote": lambda l: l[:-1], "missing underscore": lambda l: l.replace("_", "", 1), "trailing garbage": lambda l: l + "x", "two-letter section": lambda l: l[1:], "blank line": lambda l: ""}
+    for cname, f in corruptions.items():
+        for r in range(1, len(small) + 1):
+            for subset in itertools.combinations(range(len(small)), r):
+                lines = [f'{s_}_{k}="{v}"' for s_, k, v in small]
+                for i in subset:
+                    lines[i] = f(lines[i])
+                n_cases += 1
+                del groups[:]
+                st, got = run("\n".join(lines) + "\n")
+                if st != "raise":
+                    fails.setdefault("malformed-accepted", []).append(f"lines {list(subset)} corrupted ({cname}): no error, result {str(got)[:80]}")
+                    continue
+                if not groups:
+                    fails.setdefault("malformed-no-group", []).append(f"lines {list(subset)} corrupted ({cname}): raises {got.what[:60]}, not one ExceptionGroup of per-line errors")
+                    continue
+                subs = groups[-1][1] if len(groups[-1]) > 1 else None
+                named = []
+                for ex in (subs.elts if isinstance(subs, (ListLit, TupS)) else []):
+                    a = ex.fields.get("args") if isinstance(ex, Obj) else None
+                    msg = a.elts[0].v if isinstance(a, TupS) and a.elts and isinstance(a.elts[0], Const) else ""
+                    digits = "".join(ch if ch.isdigit() else " " for ch in str(msg)).split()
+                    named.append(int(digits[0]) if digits else None)
+                if sorted(x for x in named if x is not None) != list(subset) or None in named:
+                    fails.setdefault("malformed-lines", []).append(f"lines {list(subset)} corrupted ({cname}): the error group names lines {named}")
+    for k, msgs in sorted(fails.items()):
+        chk.fail("C14-S9", where, msgs[0] + (f" (and {len(msgs) - 1} more texts)" if len(msgs) > 1 else ""), key=f"corpus:{k}")
+    if not fails:
+        for _ in range(n_cases):
+            chk.ok("C14-S9", where, "model text")
+        chk.samples.append({"rule": "C14-S9", "where": where, "obligation": {"texts": n_cases, "well-formed variants": 17, "corruption kinds": list(corruptions)}})
 
 
 def section_schema(chk, repo, mod):
